@@ -543,6 +543,40 @@ func ReplayStore(id int, d StoreDims, steps []StoreStep) (res Result) {
 				f := vs[d.Variant]
 				s.fault = &f
 			}
+		case "IdleRound":
+			// the persister hands down an empty stack and the store finds nothing to do: nothing may change
+			var a struct {
+				Kind string `json:"kind"`
+			}
+			json.Unmarshal(st.Arg, &a)
+			if d.Kids && a.Kind == "full" {
+				err = fmt.Errorf("the kids dimension needs append-only behaviours")
+				break
+			}
+			s.opts = moss.StorePersistOptions{NoSync: d.NoSync}
+			if a.Kind == "full" {
+				s.opts.CompactionConcern = moss.CompactionForce
+			}
+			if err = s.mergerCycle(); err != nil {
+				break
+			}
+			var ok bool
+			ok, err = s.runRound()
+			if err == nil && !ok {
+				sr.Mismatches = append(sr.Mismatches, Mismatch{What: "round.failed", Got: fmt.Sprint(s.persistErrs), Want: "an idle round succeeds"})
+				err = errAbort
+				break
+			}
+			if err != nil {
+				break
+			}
+			sr.Mismatches = append(sr.Mismatches, s.checkStore(exp.St, "store")...)
+			sr.Mismatches = append(sr.Mismatches, s.checkColl(exp.Co, "coll")...)
+			if d.CheckFiles {
+				if okf, got := s.awaitFiles(exp.Keep, 3*time.Second); !okf {
+					sr.Mismatches = append(sr.Mismatches, Mismatch{What: "files", Got: fmt.Sprint(got), Want: fmt.Sprint(exp.Keep)})
+				}
+			}
 		case "RoundOk":
 			var ok bool
 			ok, err = s.runRound()
@@ -735,6 +769,17 @@ func ReplayStore(id int, d StoreDims, steps []StoreStep) (res Result) {
 				ps.Close()
 			}
 			s.store.Stats()
+			// the store's own mutating calls: walking the history is a read, reverting to an older footer
+			// (or to the current one) must fail or do nothing on a read-only store
+			if cur, e := s.store.Snapshot(); e == nil && cur != nil {
+				if prev, e := s.store.SnapshotPrevious(cur); e == nil && prev != nil {
+					s.store.SnapshotRevert(prev)
+					prev.Close()
+				} else {
+					s.store.SnapshotRevert(cur)
+				}
+				cur.Close()
+			}
 			sr.Mismatches = append(sr.Mismatches, s.checkStore(exp.St, "readonly.store")...)
 		case "Crash":
 			var a crashArg
